@@ -19,7 +19,7 @@
                       with room for Len never fails for lack of room. *)
 From Sdns Require Import Common.Base Gen.C15 C15.Model C15.Proofs_bits C15.Proofs_select C15.Proofs_buf
                          C15.Proofs_pack C15.Proofs_clone C15.Proofs_refute C15.Concrete C15.Proofs_concrete
-                         C15.Hybrid C15.Proofs_hybrid C15.Run C15.Proofs_history.
+                         C15.Hybrid C15.Proofs_hybrid C15.Run C15.Proofs_history C15.Cache C15.Proofs_cache.
 
 (* ---- translator ties: constants re-read from pack.go ---- *)
 
@@ -457,3 +457,64 @@ Theorem abandoned_pack_needs_the_scrub :
   option_map (fun b => nth 25 b 0%N) (match fst (lib_pack_c w_hole) with LOk b => Some b | _ => None end) = Some 0%N.
 Proof. exact abandoned_pack_witness. Qed.
 Print Assumptions abandoned_pack_needs_the_scrub.
+
+(* ---- the consumer that keeps the bytes: a cache entry (C15.Cache) ---- *)
+
+(* "the bytes stored for a cache entry are the same whether or not the fast packer handled them":
+   NewCacheEntryWithKey keeps wire.PackClone of the storable view (the reply without the OPT objects
+   of its additional section, compression on).  Whatever pooled state the pack gets — and whether
+   TryPack takes the view or PackClone falls back to the library — what is kept (bytes / no entry /
+   panic) is the library's own Pack of that view, and the pool is left within its invariant. *)
+Theorem cache_entry_stores_the_librarys_bytes : forall st m, pool_inv name body dict [] [] st ->
+  view_panics name body m = false ->
+  fst (cache_entry_c st m) = fst (lib_pack_c (storable_view name body m)) /\
+  pool_inv name body dict [] [] (snd (cache_entry_c st m)).
+Proof. exact cache_entry_is_libpack_l. Qed.
+Print Assumptions cache_entry_stores_the_librarys_bytes.
+
+(* ... under any reuse of the pooled state: two admissions of one reply keep the same bytes *)
+Theorem cache_entry_independent_of_the_pool : forall st1 st2 m,
+  pool_inv name body dict [] [] st1 -> pool_inv name body dict [] [] st2 ->
+  fst (cache_entry_c st1 m) = fst (cache_entry_c st2 m).
+Proof. exact cache_entry_pool_independent_l. Qed.
+Print Assumptions cache_entry_independent_of_the_pool.
+
+(* the DO=0 body is packed second, on whatever the first pack put back: the library's bytes again *)
+Theorem cache_entry_stripped_body_is_the_librarys : forall dn st m, pool_inv name body dict [] [] st ->
+  fst (cache_stripped_c dn (snd (cache_entry_c st m)) m) = fst (lib_pack_c (stripped_view name body dn m)).
+Proof. exact cache_stripped_is_libpack_l. Qed.
+Print Assumptions cache_entry_stripped_body_is_the_librarys.
+
+(* what the two views are: header, question, answer, authority as given, compression on, the
+   additional section without exactly its OPT objects (by Go type, not by header type); the DO=0 view
+   loses exactly the DNSSEC objects of answer and authority unless the question asks for RRSIG *)
+Theorem storable_view_is_the_reply_without_its_opt_objects : forall (m : msg name body),
+  let v := storable_view name body m in
+  m_hdr name body v = m_hdr name body m /\ m_compress name body v = true /\
+  m_question name body v = m_question name body m /\ m_answer name body v = m_answer name body m /\
+  m_ns name body v = m_ns name body m /\
+  (forall s, In s (m_extra name body v) <-> In s (m_extra name body m) /\ is_opt_object name body s = false).
+Proof. exact storable_view_facts_l. Qed.
+Print Assumptions storable_view_is_the_reply_without_its_opt_objects.
+
+Theorem stripped_view_loses_exactly_the_dnssec_objects : forall dn (m : msg name body),
+  let v := stripped_view name body dn m in
+  m_compress name body v = true /\
+  m_extra name body v = m_extra name body (storable_view name body m) /\
+  (first_qtype_is name body type_rrsig m = true ->
+     m_answer name body v = m_answer name body m /\ m_ns name body v = m_ns name body m) /\
+  (first_qtype_is name body type_rrsig m = false ->
+     forall s, In s (m_answer name body v ++ m_ns name body v) <->
+               In s (m_answer name body m ++ m_ns name body m) /\ dn s = false).
+Proof. exact stripped_view_l. Qed.
+Print Assumptions stripped_view_loses_exactly_the_dnssec_objects.
+
+(* non-vacuity, computed: a signed reply with an OPT and a retyped OPT object around a glue record —
+   the entry keeps two answers and ONE additional record; its DO=0 body one answer *)
+Example cache_entry_keeps_a_signed_reply :
+  let r := cache_entry_c dirty_state wc_msg in
+  (exists b, fst r = LOk b /\ fst (lib_pack_c (storable_view name body wc_msg)) = LOk b /\
+             u16_at b 6 = 2%N /\ u16_at b 10 = 1%N) /\
+  (exists b, fst (cache_stripped_c (is_dnssec_obj [2%N]) (snd r) wc_msg) = LOk b /\
+             u16_at b 6 = 1%N /\ u16_at b 10 = 1%N).
+Proof. exact cache_entry_witness. Qed.
